@@ -45,14 +45,15 @@ E = lambda *names: ["CacheVerif.Expect." + n for n in names]
 # obligation of every cache-level property.  It is superseded there by the semantic ties - interpreter on the generated
 # syntax = sequential model (DEEP), steps of M5 = traced atomic actions (TRACE) - which say the same thing about
 # behaviour and survive behaviour-preserving rewrites (renamed locals, a helper method, an inverted if).  It stays an
-# obligation of C14, whose footprint argument is about the syntactic list of plain accesses.
+# obligation of C14, whose footprint argument is about the syntactic list of plain accesses.  The same goes for the
+# pin of the constructors (Expect.Ctor): what C09 / C12 / C15 need from the constructors is machine-translated by go2lean
+# (plumbing, shape-checked) and printed by go2deep -ctor (goroutine, finalizer) on every run.
 EXPECT = {
-    "C09": E("Ctor"), "C12": E("Ctor"),
     "C03": E("Load", "DoCompute", "Resize", "Lock"), "C04": E("Load", "DoCompute", "Resize"),
     "C05": E("DoCompute"), "C07": E("Range"), "C08": E("DoCompute", "Resize"),
     "C10": E("Load", "DoCompute"), "C11": E("DoCompute", "Resize", "Alloc"),
     "C13": E("DoCompute", "Resize", "Range", "Lock"), "C14": E("Load", "DoCompute", "Resize", "Range", "Lock", "Cache", "Ctor"),
-    "C15": E("Ctor"), "C16": E("Load"),
+    "C16": E("Load"),
 }
 
 
